@@ -2,7 +2,11 @@
 
 package x509
 
-import "sort"
+import (
+	"sort"
+	"strconv"
+	"strings"
+)
 
 // Verification hooks for certificate issuance / parsing tables (add-only,
 // build tag verif).
@@ -51,7 +55,7 @@ func VerifC04EKUBuildTable(limit int) []VerifC04EKU {
 }
 
 // VerifC04EKUParseTable returns the parser's OID -> constant map
-// (extKeyUsageFromOID), sorted by dotted OID.
+// (extKeyUsageFromOID looks the dotted string up), sorted by dotted OID.
 func VerifC04EKUParseTable() []VerifC04EKU {
 	var keys []string
 	for k := range ekuConstants {
@@ -60,7 +64,12 @@ func VerifC04EKUParseTable() []VerifC04EKU {
 	sort.Strings(keys)
 	var out []VerifC04EKU
 	for _, k := range keys {
-		out = append(out, VerifC04EKU{EKU: int(ekuConstants[k]), OID: append([]int{}, ekuOIDs[k]...)})
+		var oid []int
+		for _, part := range strings.Split(k, ".") {
+			n, _ := strconv.Atoi(part)
+			oid = append(oid, n)
+		}
+		out = append(out, VerifC04EKU{EKU: int(ekuConstants[k]), OID: oid})
 	}
 	return out
 }
